@@ -216,6 +216,9 @@ func (idb *Client) getBuffer(ctx context.Context) (*bytes.Buffer, io.WriteCloser
 }
 
 func (idb *Client) releaseBuffer(buf *bytes.Buffer) {
+	if buf == nil { // getBuffer hands out nil once the context is cancelled
+		return
+	}
 	buf.Reset()
 	idb.reqBufferSem <- buf
 }
